@@ -120,6 +120,7 @@ PROP_BOUNDED = {
     'C05': 'harness/c05_bounded.py',
     'C06': 'harness/c06_bounded.py',
     'C13': 'harness/c13_bounded.py',
+    'C20': 'harness/c20_bounded.py',
 }
 
 
